@@ -22,6 +22,33 @@ def load_exceptions(prop):
     return out
 
 
+def build_counts(wire):
+    """binrw facts for discharge D7: {(item path, Vec field): ("const", n) | ("field", sibling)} for fields declared
+    `#[br(count = ..)]` with nothing else that could change the resulting length."""
+    from .. import wire as W
+
+    out = {}
+    for it in W.Items(wire).binrw_items():
+        if it["kind"] != "struct":
+            continue
+        for f in it["fields"]:
+            if not f["ty"].replace(" ", "").startswith("Vec<"):
+                continue
+            ds = W.directives(f["attrs"])
+            if any(d.name in ("if", "ignore", "default", "map", "try_map", "parse_with", "calc", "try_calc", "temp") and "r" in d.side for d in ds):
+                continue
+            cs = [d for d in ds if d.name == "count" and "r" in d.side]
+            if len(cs) != 1 or len(cs[0].value) != 1:
+                continue
+            v = cs[0].value[0]
+            n = W.int_lit(v)
+            if n is not None:
+                out[(it["path"], f["name"])] = ("const", n)
+            elif isinstance(v, str) and any(s["name"] == v for s in it["fields"]):
+                out[(it["path"], f["name"])] = ("field", v)
+    return out
+
+
 DECIDED_KINDS = ("unwrap", "panic", "index", "bounds", "arith", "alloc", "slice-pre", "leak", "assert-other")
 
 
@@ -32,7 +59,7 @@ def run_panic(ctx, entries, floor_entries, floor_defs, rule="PANIC"):
         ctx.fail_closed(rule, f"entry point {m} not found")
     present = [e for e in entries if e in prog.bodies]
     ctx.floor(rule, "entry points", len(present), floor_entries)
-    sites, reach, parent, defs = P.analyse(prog, present)
+    sites, reach, parent, defs = P.analyse(prog, present, build_counts(ctx.wire), ctx.wire)
     ctx.floor(rule, "local functions reachable from the entry points", len(defs), floor_defs)
     exc = load_exceptions(ctx.prop)
     exc_left = {k: int(e.get("count", 1)) for k, e in exc.items()}
@@ -52,7 +79,7 @@ def run_panic(ctx, entries, floor_entries, floor_defs, rule="PANIC"):
         if exc_left.get(fk, 0) > 0 and exc[fk].get("requires"):
             # machine-checked guard: the exception only holds while the guard is still there
             ix = P.BodyIndex(prog.bodies[s.fn])
-            if not P.REQUIRES[exc[fk]["requires"]](ix, s):
+            if not P.REQUIRES[exc[fk]["requires"]](ix, s, exc[fk]):
                 exc_left[fk] = 0
         if exc_left.get(fk, 0) > 0:
             exc_left[fk] -= 1
